@@ -13,6 +13,7 @@ import (
 	"encoding/json"
 	"flag"
 	"fmt"
+	"hash/fnv"
 	"math/rand"
 	"os"
 	"path/filepath"
@@ -404,23 +405,103 @@ func (f *fakeRedis) Del(ctx context.Context, keys ...string) *redis.IntCmd {
 	return redis.NewIntResult(n, nil)
 }
 
-func (f *fakeRedis) Scan(ctx context.Context, cursor uint64, match string, _ int64) *redis.ScanCmd {
+// Scan pages the key space the way a server does: the cursor walks ALL keys of the database in a
+// fixed pseudo-random (hash) order, at most COUNT keys (default 10) are visited per call, MATCH
+// filters what was visited - so a page may be short or empty when keys of other prefixes lie in
+// between - and cursor 0 ends the iteration.  Keys deleted behind the cursor do not disturb it.
+// The command is built like go-redis builds it, so ScanCmd.Iterator() re-issues it through
+// scanProcess with the returned cursor.
+func (f *fakeRedis) Scan(ctx context.Context, cursor uint64, match string, count int64) *redis.ScanCmd {
+	args := []interface{}{"scan", cursor}
+	if match != "" {
+		args = append(args, "match", match)
+	}
+	if count > 0 {
+		args = append(args, "count", count)
+	}
+	cmd := redis.NewScanCmd(ctx, f.scanProcess, args...)
+	_ = f.scanProcess(ctx, cmd)
+	return cmd
+}
+
+func keyHash(k string) uint64 {
+	h := fnv.New32a()
+	h.Write([]byte(k))
+	return uint64(h.Sum32())
+}
+
+func (f *fakeRedis) scanProcess(ctx context.Context, c redis.Cmder) error {
 	f.gate(ctx)
 	f.mu.Lock()
 	defer f.mu.Unlock()
-	f.logf("scan %d %s", cursor, match)
-	if !strings.HasSuffix(match, "*") || strings.ContainsAny(strings.TrimSuffix(match, "*"), "*?[\\") {
-		return redis.NewScanCmdResult(nil, 0, fmt.Errorf("fake redis: unsupported pattern %q", match))
+	cmd, ok := c.(*redis.ScanCmd)
+	if !ok {
+		return fmt.Errorf("fake redis: scanProcess on %T", c)
 	}
-	pre := strings.TrimSuffix(match, "*")
-	keys := make([]string, 0)
-	for k := range f.data {
-		if _, ok := f.live(k); ok && strings.HasPrefix(k, pre) {
-			keys = append(keys, k)
+	args := cmd.Args()
+	var cursor uint64
+	switch x := args[1].(type) {
+	case uint64:
+		cursor = x
+	case int64:
+		cursor = uint64(x)
+	case int:
+		cursor = uint64(x)
+	}
+	match, count := "*", int64(10)
+	for i := 2; i+1 < len(args); i += 2 {
+		switch fmt.Sprint(args[i]) {
+		case "match":
+			match = fmt.Sprint(args[i+1])
+		case "count":
+			if n, ok := args[i+1].(int64); ok && n > 0 {
+				count = n
+			}
 		}
 	}
-	sort.Strings(keys)
-	return redis.NewScanCmdResult(keys, 0, nil)
+	if !strings.HasSuffix(match, "*") || strings.ContainsAny(strings.TrimSuffix(match, "*"), "*?[\\") {
+		err := fmt.Errorf("fake redis: unsupported pattern %q", match)
+		cmd.SetErr(err)
+		return err
+	}
+	pre := strings.TrimSuffix(match, "*")
+	type hk struct {
+		h uint64
+		k string
+	}
+	all := make([]hk, 0, len(f.data))
+	for k := range f.data {
+		if _, ok := f.live(k); ok {
+			if h := keyHash(k); h >= cursor {
+				all = append(all, hk{h, k})
+			}
+		}
+	}
+	sort.Slice(all, func(a, b int) bool {
+		if all[a].h != all[b].h {
+			return all[a].h < all[b].h
+		}
+		return all[a].k < all[b].k
+	})
+	n := int(count)
+	for n < len(all) && n > 0 && all[n].h == all[n-1].h { // equal hashes are visited together
+		n++
+	}
+	var next uint64
+	if n < len(all) {
+		next = all[n-1].h + 1
+	} else {
+		n = len(all)
+	}
+	page := make([]string, 0, n)
+	for _, e := range all[:n] {
+		if strings.HasPrefix(e.k, pre) {
+			page = append(page, e.k)
+		}
+	}
+	f.logf("scan %d match %s count %d -> %d keys, cursor %d", cursor, match, count, len(page), next)
+	cmd.SetVal(page, next)
+	return nil
 }
 
 // ---------------------------------------------------------------- executors
@@ -459,8 +540,15 @@ func runBoth(w *tr.W, src string, size, dttl, nk, now, pfx int, acts []act) {
 	fr := newFake()
 	m := &sut{c: cache.NewTTLMemCache(size, int64(dttl)), prefix: "m" + prefixes[pfx%len(prefixes)]}
 	r := &sut{c: cache.NewTTLRdsCache(fr, "ttl:"+prefixes[pfx%len(prefixes)], int64(dttl)), prefix: "k"}
-	// a key of another prefix lives in the same server and must survive Clear
-	fr.data["other:1"] = fentry{val: "x"}
+	// keys of other prefixes live in the same server, interleave with ours in SCAN order and
+	// must survive Clear
+	foreign := []string{"other:1", "ttl", "ttlx:k1", "tt:k2", "k1", "session:9f", "z"}
+	for n := 0; n < 3*nk/2; n++ {
+		foreign = append(foreign, "cfg:"+strconv.Itoa(n))
+	}
+	for _, k := range foreign {
+		fr.data[k] = fentry{val: "x"}
+	}
 	w.Emit(tr.E{"ev": "reset", "size": size, "dttl": dttl, "nk": nk, "now": now, "threads": 1,
 		"impl": "both", "src": src})
 	for _, a := range acts {
@@ -473,7 +561,13 @@ func runBoth(w *tr.W, src string, size, dttl, nk, now, pfx int, acts []act) {
 		rr := r.do(a)
 		w.Emit(tr.E{"ev": "call2", "a": a.rec(), "r": mr, "rr": rr, "cmds": fr.take()})
 	}
-	if _, ok := fr.data["other:1"]; !ok {
+	gone := 0
+	for _, k := range foreign {
+		if _, ok := fr.data[k]; !ok {
+			gone++
+		}
+	}
+	if gone > 0 {
 		// Clear removed a key outside its prefix: make it visible to the spec
 		w.Emit(tr.E{"ev": "call2", "a": tr.E{"op": "clear"}, "r": rp("ok", 0),
 			"rr": rp("foreign key deleted by Clear", 0), "cmds": fr.take()})
@@ -639,6 +733,35 @@ func randBoth(w *tr.W, rng *rand.Rand, i, maxops int) {
 	nv := 0
 	n := 5 + rng.Intn(maxops)
 	acts := make([]act, 0, n+1)
+	if i%3 == 2 {
+		// a key space that needs several SCAN pages: fill, Clear, then ask for every key
+		nk = 12 + rng.Intn(29)
+		size = nk + rng.Intn(3)
+		for _, k := range rng.Perm(nk) {
+			if rng.Intn(8) == 0 {
+				continue
+			}
+			nv++
+			a := act{Op: "set", K: k + 1, V: nv, Ht: true, TTL: 30 + rng.Intn(30), Nx: rng.Intn(4) == 0}
+			dl[a.K] = now + a.TTL
+			acts = append(acts, a)
+		}
+		acts = append(acts, act{Op: "clear"})
+		dl = map[int]int{}
+		if rng.Intn(2) == 0 {
+			acts = append(acts, act{Op: "probe", Ks: allKeys(nk)})
+		}
+		for _, k := range rng.Perm(nk) {
+			if rng.Intn(3) == 0 {
+				continue
+			}
+			nv++
+			a := act{Op: "set", K: k + 1, V: nv, Ht: true, TTL: 30 + rng.Intn(30), Nx: true}
+			dl[a.K] = now + a.TTL
+			acts = append(acts, a)
+		}
+		acts = append(acts, act{Op: "probe", Ks: allKeys(nk)})
+	}
 	for j := 0; j < n; j++ {
 		k := rng.Intn(nk) + 1
 		switch x := rng.Intn(100); {
